@@ -28,6 +28,11 @@ def universe(tier):
                         for mode in ("asap", "palap", "talap", "talap-mid"):
                             for eff in ((1.0,) if tier == "quick" and pat not in ("one90", "chain") else (1.0, 0.7)):
                                 yield {"hk": hk, "days": days, "z": z, "L": L, "pat": pat, "mode": mode, "eff": eff}
+    # gaplength at resolutions whose slot is not a binary fraction of an hour (sums of 1/6, 1/3, 1/12, 1/10, 1/60 h)
+    for L in (10, 20, 5, 6, 1):
+        for g in ("1h", "50min", "2h", "30min", "6min", "7min"):
+            for mode in ("asap",):
+                yield {"hk": None, "days": None, "z": None, "L": L, "pat": "gaplen" + g, "mode": mode, "eff": 1.0}
     # default calendar + leaves
     for lv in c02.LEAVES:
         for pat in PATTERNS:
